@@ -343,7 +343,7 @@ def main(argv=None):
             try:
                 _, err = p.communicate(timeout=max(1, deadline - time.time()))
                 if p.returncode != 0:
-                    shard_err.append("exit %s: %s" % (p.returncode, (err or b"")[-400:].decode("replace")))
+                    shard_err.append("exit %s: %s" % (p.returncode, (err or b"")[-400:].decode("utf-8", "replace")))
             except subprocess.TimeoutExpired:
                 p.kill()
                 p.communicate()
